@@ -253,8 +253,20 @@ pub fn rehash(args: &[String]) {
     }
 }
 
+/// Root of the verification tree this binary belongs to (a snapshot of /verif under `vp run`).
+pub fn root() -> String {
+    std::env::var("VERIF_ROOT").unwrap_or_else(|_| "/verif".to_string())
+}
+
+/// The simulator binary of the given flavour, next to the one that is running.
 fn exe(flavour: &str) -> String {
-    format!("/verif/target/{}/simcheck", if flavour == "dbg" { "debug" } else { "release" })
+    let dir = if flavour == "dbg" { "debug" } else { "release" };
+    if let Ok(me) = std::env::current_exe() {
+        if let Some(target) = me.parent().and_then(|p| p.parent()) {
+            return format!("{}/{}/simcheck", target.display(), dir);
+        }
+    }
+    format!("/verif/target/{}/simcheck", dir)
 }
 
 struct PhaseResult {
@@ -397,8 +409,8 @@ pub fn sigs_of(out: &RunOutput) -> Vec<(String, String)> {
 
 /// Runs a plan in a child process of the given flavour (needed when the failure kills the process).
 pub fn run_in_child(plan: &Plan, flavour: &str) -> Vec<(String, String)> {
-    let dir = "/verif/target/tmp";
-    let _ = std::fs::create_dir_all(dir);
+    let dir = format!("{}/target-tmp", root());
+    let _ = std::fs::create_dir_all(&dir);
     let path = format!("{}/plan-{}-{:?}.json", dir, std::process::id(), std::thread::current().id());
     std::fs::write(&path, serde_json::to_string(plan).unwrap()).unwrap();
     let outpath = format!("{}.out", path);
@@ -457,7 +469,7 @@ pub fn runplan(path: &str) {
 }
 
 fn load_known() -> Vec<Known> {
-    let Ok(text) = std::fs::read_to_string("/verif/known_findings.jsonl") else { return vec![] };
+    let Ok(text) = std::fs::read_to_string(format!("{}/known_findings.jsonl", root())) else { return vec![] };
     text.lines().filter(|l| !l.trim().is_empty()).filter_map(|l| serde_json::from_str(l).ok()).collect()
 }
 
@@ -542,7 +554,7 @@ pub fn check(prop: &str, tier: &str) -> i32 {
         }
         classes.entry((v.rule.clone(), v.flavour.clone())).or_insert_with(|| v.clone());
     }
-    let _ = std::fs::create_dir_all("/verif/replays");
+    let _ = std::fs::create_dir_all(format!("{}/replays", root()));
     for ((rule, flavour), v) in classes.iter() {
         let mut plan = gen_for(prop, v.seed, tier);
         if v.k >= 0 {
@@ -589,7 +601,7 @@ pub fn check(prop: &str, tier: &str) -> i32 {
             }
             continue;
         }
-        let path = format!("/verif/replays/{}-{}-{}-{}.json", prop, rule, flavour, v.seed);
+        let path = format!("{}/replays/{}-{}-{}-{}.json", root(), prop, rule, flavour, v.seed);
         let rp = Replay { property: prop.to_string(), rule: rule.clone(), detail: detail.clone(), flavour: flavour.clone(), seed: v.seed, tier: tier.to_string(), minimised: reproduced, plan: min, trace_hash: hash };
         std::fs::write(&path, serde_json::to_string_pretty(&rp).unwrap()).unwrap();
         println!("VIOLATION property={} replay={}", prop, path);
@@ -677,8 +689,8 @@ fn write_evidence(prop: &str, tier: &str, batch: u64, sp: &spec::Spec, agg: &Agg
         "wall_s": wall,
         "violations": violations,
     });
-    let _ = std::fs::create_dir_all("/verif/evidence");
-    std::fs::write(format!("/verif/evidence/{}.json", prop), serde_json::to_string_pretty(&ev).unwrap()).unwrap();
+    let _ = std::fs::create_dir_all(format!("{}/evidence", root()));
+    std::fs::write(format!("{}/evidence/{}.json", root(), prop), serde_json::to_string_pretty(&ev).unwrap()).unwrap();
 }
 
 /// `simcheck replay <file>`: re-executes the stored plan; exit 1 + VIOLATION line if it reproduces.
